@@ -59,24 +59,19 @@ class Node:
     ) -> _T:
         """Deserialize a Node from Protobuf.
 
-        Performs a cache lookup for the object's UUID in the cache, calling the
-        class' _decode_protobuf constructor if cannot find it.
+        Calls the class' _decode_protobuf constructor. Every node of an IR has
+        its own UUID, so one that the IR knows already is an error.
         """
 
         uuid = UUID(bytes=proto_object.uuid)
-        node = None
         if ir is not None:
             cached_node = ir.get_by_uuid(uuid)
-            if isinstance(cached_node, cls):
-                node = cached_node
-            elif cached_node is not None:
+            if cached_node is not None:
                 raise DeserializationError(
-                    "got %s for UUID %s but expected %s"
-                    % (type(cached_node).__name__, uuid, cls.__name__)
+                    "UUID %s of a %s is already used by a %s"
+                    % (uuid, cls.__name__, type(cached_node).__name__)
                 )
-        if node is None:
-            node = cls._decode_protobuf(proto_object, uuid, ir)
-        return node
+        return cls._decode_protobuf(proto_object, uuid, ir)
 
     def _to_protobuf(self) -> Message:
         """Get a Protobuf representation of ``self``.
